@@ -54,7 +54,7 @@ var reCollection = regexp.MustCompile(`^([a-z]|X[0-9]+)s$`)
 func C07(e *core.Env) {
 	res := e.Res
 	res.Rule = "cases = well-formed declarative profiles that must compile: (a) N nested constraints side by side in one validation, N in 1..40 crossing the 25-letter boundary (quick: 14 values, thorough: all), (b) nesting depth 1..7, (c) 1..30 validations over the three levels, (d) every documented constraint kind x path shape (single, sequence, alternative, inverse, alternative inside a sequence inside an alternative, @type), (e) several constraints of one kind in one rule body (or / if / not-and), with messages of 0..3 placeholders, (f) seeded random formulas; " +
-		"for (a) and (b) the quantified variables and collections found in the real module (parsed with the engine's parser) must be exactly the model's var_name / plural; (i) the string literal written for 12 patterns and the set literal written for 6 value lists, text against text with the Coq model; (h) 28 legal but degenerate / unusual arguments (empty lists, zero counts, patterns with a backtick / quote / backslash class / newline, path keys over several lines or with tabs, zero / negative / float bounds, quantifier counts 0 and 10^6) plain and under not; (j) 8 level listings (a validation under two / three levels, twice under one level, a level listing only validations another level lists too); (k) histories: two well-formed profiles compiled three times after each of 6 refused profiles (undeclared prefix in a path / class / placeholder, broken Rego, a non-path, no YAML); (m) the text of whole rules (one-branch validations: a count / length / pattern / datatype / numeric-bound / `in` / containsAll / containsSome constraint plain or under `not`, an `or` of two, over three path shapes, three levels, names with quotes and percent signs, messages with 0-2 placeholders), every line against RuleGen.rule_lines; (l) the text of the path rules (values and nodes mode) of every path with <= 2 leaves and a sample with 3, over regular and custom (api-extension) properties, line by line against PathGen.path_rule_lines; (g) 24 texts (each control / format / astral / quoting character on its own) x {profile name, validation name, message, list value}; non-trivial = every case; distinct by profile text"
+		"for (a) and (b) the quantified variables and collections found in the real module (parsed with the engine's parser) must be exactly the model's var_name / plural; (i) the string literal written for 12 patterns and the set literal written for 6 value lists, text against text with the Coq model; (h) 28 legal but degenerate / unusual arguments (empty lists, zero counts, patterns with a backtick / quote / backslash class / newline, path keys over several lines or with tabs, zero / negative / float bounds, quantifier counts 0 and 10^6) plain and under not; (j) 8 level listings (a validation under two / three levels, twice under one level, a level listing only validations another level lists too); (k) histories: two well-formed profiles compiled three times after each of 6 refused profiles (undeclared prefix in a path / class / placeholder, broken Rego, a non-path, no YAML); (m) the text of whole rules (one-branch validations: a count / length / pattern / datatype / numeric-bound / `in` / containsAll / containsSome / property-pair constraint plain or under `not`, an `or` of two, over three path shapes, three levels, names with quotes and percent signs, messages with 0-2 placeholders), every line against RuleGen.rule_lines; (l) the text of the path rules (values and nodes mode) of every path with <= 2 leaves and a sample with 3, over regular and custom (api-extension) properties, line by line against PathGen.path_rule_lines; (g) 24 texts (each control / format / astral / quoting character on its own) x {profile name, validation name, message, list value}; non-trivial = every case; distinct by profile text"
 	compile := func(label, profile string, known func(err error) bool) bool {
 		_, err := pkg.CompileProfile(profile, false, nil)
 		if err == nil {
@@ -492,6 +492,8 @@ func C07(e *core.Env) {
 			{key: "in", val: `[ a, "b c", 3, "quo\"te", 'back\slash', "100%" ]`, kind: "in", vals: []string{"a", "b c", "3", "quo\"te", "back\\slash", "100%"}}, {key: "in", val: "[ only ]", kind: "in", vals: []string{"only"}},
 			{key: "datatype", val: "xsd.string", kind: "datatype", dt: "http://www.w3.org/2001/XMLSchema#string"},
 			{key: "containsAll", val: `[ a, "b c", "quo\"te" ]`, kind: "containsAll", vals: []string{"a", "b c", "quo\"te"}}, {key: "containsSome", val: "[ a ]", kind: "containsSome", vals: []string{"a"}},
+			{key: "lessThanProperty", val: "ex.other", kind: "cmp", cid: "lessThan", cond: "<"}, {key: "lessThanOrEqualsToProperty", val: `"ex.o1 / ex.o2"`, kind: "cmp", cid: "lessThanOrEqualsTo", cond: "<="},
+			{key: "equalsToProperty", val: "ex.other", kind: "cmp", cid: "equalsTo", cond: "="}, {key: "disjointWithProperty", val: `"ex.o1 | ex.o2 ^"`, kind: "cmp", cid: "disjointWith", cond: "!="},
 			{key: "containsAll", val: "[]", kind: "containsAll", vals: []string{}}, {key: "containsSome", val: `[ x, y, "100%" ]`, kind: "containsSome", vals: []string{"x", "y", "100%"}}, {key: "datatype", val: "xsd.integer", kind: "datatype", dt: "http://www.w3.org/2001/XMLSchema#integer"},
 		}
 		pathsR := []string{"ex.a", "ex.a / ex.b", "( ex.a | ex.b ^ ) / ex.c"}
@@ -507,6 +509,8 @@ func C07(e *core.Env) {
 		reNum := regexp.MustCompile(`^gen_numeric_comparison_(\d+)_elem = (gen_path_set_rule_\d+) with `)
 		reIn := regexp.MustCompile(`^gen_x_check_(\d+)_array = (gen_path_set_rule_\d+) with `)
 		reInSet := regexp.MustCompile(`^gen_inValues_(\d+) = `)
+		reCmpA := regexp.MustCompile(`^(gen_path_set_rule_\d+)As = `)
+		reCmpB := regexp.MustCompile(`^(gen_path_set_rule_\d+)Bs = `)
 		reContains := regexp.MustCompile(`^gen_(containsAll|containsSome)_(\d+) = `)
 		type rcase struct {
 			label, body string
@@ -525,7 +529,7 @@ func C07(e *core.Env) {
 				cases = append(cases, rcase{"not " + a.key + " on " + pth, "    not:\n  " + strings.ReplaceAll(pc, "\n    ", "\n      "), []ratom{a}, true})
 			}
 		}
-		for _, ij := range [][2]int{{0, 6}, {4, 12}, {2, 7}, {5, 13}, {8, 14}, {9, 6}, {1, 15}, {10, 13}, {11, 3}, {16, 0}, {17, 14}, {19, 6}} {
+		for _, ij := range [][2]int{{0, 6}, {4, 12}, {2, 7}, {5, 13}, {8, 14}, {9, 6}, {1, 15}, {10, 13}, {11, 3}, {16, 0}, {17, 14}, {23, 6}, {18, 2}, {21, 12}} {
 			a, b := atomsR[ij[0]], atomsR[ij[1]]
 			cases = append(cases, rcase{"or of " + a.key + " and " + b.key, fmt.Sprintf("    or:\n      - propertyConstraints:\n          ex.a:\n            %s: %s\n      - propertyConstraints:\n          ex.b / ex.c:\n            %s: %s\n", a.key, a.val, b.key, b.val), []ratom{a, b}, false})
 		}
@@ -593,6 +597,14 @@ func C07(e *core.Env) {
 					okShape = okShape && ok
 					v := sx.L(sx.A("datatype"), sx.S(src), sx.S(mm[2]), sx.A(mm[1]), sx.B(c.negated), sx.S(a.dt))
 					pending = &v
+				} else if mm := reCmpA.FindStringSubmatch(line); mm != nil {
+					a, ok := byKind("cmp")
+					okShape = okShape && ok
+					// (cmp srcA ruleA srcB ruleB negated cid op): srcB / ruleB are filled in at the second binding line
+					v := sx.L(sx.A("cmp"), sx.S(src), sx.S(mm[1]), sx.S(""), sx.S(""), sx.B(c.negated), sx.S(a.cid), sx.S(a.cond))
+					pending = &v
+				} else if mm := reCmpB.FindStringSubmatch(line); mm != nil && pending != nil && pending.List[0].Atom == "cmp" {
+					pending.List[3], pending.List[4] = sx.S(src), sx.S(mm[1])
 				} else if mm := reNum.FindStringSubmatch(line); mm != nil {
 					a, ok := byKind("numeric")
 					okShape = okShape && ok
